@@ -210,6 +210,7 @@ fn h_dispatch() {
         None => return,
     };
     DISPATCHES.fetch_add(1, Ordering::Relaxed);
+    host_tick(vs::DISPATCH);
     if me == 0 {
         let n = MAIN_DISPATCHES.fetch_add(1, Ordering::Relaxed);
         let fire = with_faults(|f| f.interrupt_at == Some(n)).unwrap_or(false);
@@ -227,11 +228,39 @@ fn h_dispatch() {
     }
 }
 
+/// The embedding program's view of time: every hook event of any simulated
+/// thread is one tick, and the host's interrupt request can arrive at any tick
+/// (during script execution, inside a world stop, during a collection, while a
+/// thread is entering or leaving a safepoint ...).
+fn host_tick(site: u32) {
+    let at = HOST_INTERRUPT_AT.load(Ordering::Relaxed);
+    if at == u64::MAX {
+        return;
+    }
+    let t = HOST_TICKS.fetch_add(1, Ordering::SeqCst);
+    if t == at {
+        if let Some(c) = CONTROLLER.lock().unwrap().as_ref() {
+            let stops: u64 = monitor(|m| m.stops_in_force.values().sum());
+            HOST_INTERRUPT_DURING_STOP.store(stops > 0, Ordering::SeqCst);
+            HOST_INTERRUPT_SITE.store(site as u64, Ordering::SeqCst);
+            c.interrupt();
+            HOST_INTERRUPT_MAIN_DISPATCH.store(MAIN_DISPATCHES.load(Ordering::SeqCst), Ordering::SeqCst);
+            report::fault(if stops > 0 { "interrupt@tick-during-world-stop" } else { "interrupt@tick" });
+            sched::note(crate::sites::H_HOST_INTERRUPT, t);
+        }
+    }
+}
+
+pub static HOST_TICKS: AtomicU64 = AtomicU64::new(0);
+pub static HOST_INTERRUPT_DURING_STOP: AtomicBool = AtomicBool::new(false);
+pub static HOST_INTERRUPT_SITE: AtomicU64 = AtomicU64::new(0);
+
 fn h_point(site: u32, arg: usize) {
     let me = match sched::current() {
         Some(t) => t,
         None => return,
     };
+    host_tick(site);
     match site {
         vs::SP_PUBLISH | vs::ES_PUBLISH | vs::ESO_PUBLISH => {
             monitor(|m| {
@@ -379,11 +408,40 @@ fn h_point(site: u32, arg: usize) {
             });
             sched::yield_point_ex(site, 0, true);
         }
+        vs::WATCHDOG_ARMED => {
+            WD_ARMED_AT.store(sched::now(), Ordering::SeqCst);
+            sched::yield_point_ex(site, 0, true);
+        }
+        vs::WATCHDOG_FIRED => {
+            WD_FIRES.fetch_add(1, Ordering::SeqCst);
+            WD_FIRED_AT_MAIN_DISPATCH.store(MAIN_DISPATCHES.load(Ordering::SeqCst), Ordering::SeqCst);
+            report::fault("watchdog-interrupt");
+            sched::yield_point_ex(site, 0, true);
+        }
+        vs::WATCHDOG_BODY_DONE => {
+            WD_BODY_DONE_AT.store(sched::now(), Ordering::SeqCst);
+            sched::yield_point_ex(site, 0, true);
+        }
+        vs::WATCHDOG_WOKE | vs::WATCHDOG_FIRE | vs::WATCHDOG_SENT | vs::WATCHDOG_RESUMED | vs::WATCHDOG_DISARMED => {
+            sched::yield_point_ex(site, 0, true);
+        }
         _ => {
             sched::note(site, arg as u64);
         }
     }
 }
+
+/// Bookkeeping for the watchdog scenario (simulated time / dispatch counts).
+pub static WD_ARMED_AT: AtomicU64 = AtomicU64::new(0);
+pub static WD_BODY_DONE_AT: AtomicU64 = AtomicU64::new(0);
+pub static WD_FIRES: AtomicU64 = AtomicU64::new(0);
+pub static WD_FIRED_AT_MAIN_DISPATCH: AtomicU64 = AtomicU64::new(0);
+/// Only fair scheduling strategies (no strict priorities) for this run.
+pub static FAIR_ONLY: AtomicBool = AtomicBool::new(false);
+/// Raise the interrupt flag when the global dispatch count reaches this value
+/// (whichever thread is dispatching: the host calls from outside).
+pub static HOST_INTERRUPT_AT: AtomicU64 = AtomicU64::new(u64::MAX);
+pub static HOST_INTERRUPT_MAIN_DISPATCH: AtomicU64 = AtomicU64::new(u64::MAX);
 
 fn h_spin(site: u32) {
     sched::spin(site);
@@ -416,6 +474,17 @@ fn h_join(thread: std::thread::ThreadId, finished: &mut dyn FnMut() -> bool) {
             report::harness_error("joined thread ended in simulated terms but its OS thread did not finish".to_string());
         }
     }
+}
+
+fn h_timed_wait(site: u32, cond: &mut dyn FnMut() -> bool, timeout: std::time::Duration) -> Option<bool> {
+    if sched::current().is_none() {
+        return None;
+    }
+    let ok = sched::timed_wait(site, cond, timeout.as_micros() as u64);
+    if !ok {
+        report::fault("timer-expired");
+    }
+    Some(ok)
 }
 
 fn h_park(site: u32) {
@@ -497,6 +566,10 @@ static CORE_HOOKS: steel::verif::Hooks = steel::verif::Hooks {
     force_collection: h_force_collection,
     knob: h_knob,
     stale_slot: h_stale_slot,
+    thread_prepare: rc_prepare,
+    thread_begin: rc_begin,
+    thread_end: rc_end,
+    timed_wait: h_timed_wait,
 };
 
 // steel-rc hooks at VM level: no sub-operation scheduling (values are dropped
@@ -565,6 +638,12 @@ pub fn hot_site(site: u32) -> bool {
             | vs::ENV_TOUCH_BEGIN
             | vs::HEAP_LOCKED
             | vs::THREAD_REGISTERED
+            | vs::WATCHDOG_WOKE
+            | vs::WATCHDOG_FIRE
+            | vs::WATCHDOG_BODY_DONE
+            | vs::WATCHDOG_SENT
+            | vs::WATCHDOG_RESUMED
+            | vs::WATCHDOG_ARMED
     )
 }
 
@@ -604,7 +683,10 @@ pub fn start(spec: &crate::runner::Spec, opts: VmOptions) -> Engine {
     report::install_panic_hook(opts.panic_class);
     *STALE_PROP.lock().unwrap() = opts.property.to_string();
     let mut srng = Rng::derive(spec.seed, spec.index, 2);
-    let strategy = sched::Strategy::swarm(&mut srng, opts.expected_steps);
+    let mut strategy = sched::Strategy::swarm(&mut srng, opts.expected_steps);
+    while FAIR_ONLY.load(Ordering::SeqCst) && matches!(strategy.kind, sched::Kind::Pct) {
+        strategy = sched::Strategy::swarm(&mut srng, opts.expected_steps);
+    }
     report::set_strategy(strategy.describe());
     sched::init(sched::Config {
         seed: srng.next_u64(),
